@@ -221,6 +221,8 @@ def run(prog: Program, rep: Report, tier: str):
             """The class's own namespace, or the namespace of a class taken from its MRO (vars(base) / base.__dict__)."""
             if is_cls_dict(c) or c == ("attr", CLS, "__dict__"):
                 return True
+            if c[0] == "elem" and c[1][0] == "comp":
+                return hook_namespace(c[1][2])  # an element of `map(vars, cls.__mro__[:-1])`
             inner = c[2][0] if T.is_call_to(c, "builtins.vars") and len(c[2]) == 1 else (c[1] if c[0] == "attr" and c[2] == "__dict__" else None)
             return inner is not None and (inner == CLS or T.contains(inner, lambda y: y == ("attr", CLS, "__mro__") or (y[0] == "call" and y[1][0] == "attr" and y[1][1] == CLS and y[1][2] == "mro")))
 
@@ -233,6 +235,8 @@ def run(prog: Program, rep: Report, tier: str):
             c = tm[2][0]
             # the generator over the hook names is expanded; a second generator over the MRO stays symbolic
             const_gens = [g0 for g0 in c[3] if P.flatten_display(prog, g0[0]) is not None]
+            if not const_gens:
+                return beval(c[2], asg)  # one symbolic generator (the MRO): "some / every class on it"
             if len(const_gens) != 1:
                 return None
             src = const_gens[0][0]
